@@ -104,17 +104,20 @@ def report(pid, tier, seed, t0, res):
         try: os.remove(old)
         except OSError: pass
     kf = known_findings(); known = [k for k in kf.get('findings', []) if k.get('property') == pid]
-    for lem, err in res['failures'][:8]:
+    fails = list(res['failures']); own = [x for x in fails if hasattr(x[0], 'search')]; nsearch = 8 if not own else min(len(fails), 64)
+    res['failures'] = fails
+    for lem, err in fails[:nsearch]:
         cx, errs = (None, [])
-        try: cx, errs = (None, ['no search for implication-shaped / IEEE-enumeration statements']) if (getattr(lem, 'raw_stmt', False) or getattr(lem, 'mode', None) == 'ieee') else search_counterexample(idx, lem, seed)
+        try: cx, errs = lem.search(idx, seed) if hasattr(lem, 'search') else (None, ['no search for implication-shaped / IEEE-enumeration statements']) if (getattr(lem, 'raw_stmt', False) or getattr(lem, 'mode', None) == 'ieee') else search_counterexample(idx, lem, seed)
         except Exception as e: errs = ['search failed: %r' % e]
         obj = {'kind': 'counterexample' if cx else 'unproved', 'theorem': lem.name, 'statement': lem.statement()[:2000], 'meta': lem.meta, 'coq_error': err[-600:], 'how_found': 'lemma failed; both sides evaluated with the IEEE/Z instance under vm_compute on %s candidate inputs' % ('600'), 'search_errors': errs[:2]}
         if cx:
             obj.update(cx)
-            try: obj.update(confirm_on_crate(idx, lem, cx))
+            try:
+                if not cx.get('confirmed_on_crate'): obj.update(confirm_on_crate(idx, lem, cx))
             except Exception as e: obj['crate_replay_error'] = repr(e)[:300]
         viol.append((obj, cx is not None))
-    for lem, err in res['failures'][8:]:
+    for lem, err in fails[nsearch:]:
         viol.append(({'kind': 'unproved', 'theorem': lem.name, 'statement': lem.statement()[:2000], 'meta': lem.meta, 'coq_error': err[-600:], 'how_found': 'lemma failed (search limited to the first 8 failing lemmas)'}, False))
     cstats, cbad = res.get('corr', ({}, []))
     for b in cbad[:20]:
